@@ -374,6 +374,57 @@ Check c17_filler_object_parses_back : forall base f pre o post v,
        /\ parse (ser_incr v ++ endobj_tail t) = Some (norm v).
 Print Assumptions c17_filler_object_parses_back.
 
+(** * the whole indirect object, header included.  [read_indirect] (ParseBack.v) reads integer,
+    integer, keyword [obj], one value (C09's [parse_tok]), keyword [endobj] from C09's token sequence
+    [lex_all]; it packages the token-level facts and is itself not tied to reader.rs by a channel.
+    Object numbers are u32 and generations u16 in the code (ObjectId(u32, u16)). *)
+Theorem c17_obj_bytes_lexes : forall o v t,
+  fst (fst o) <= 4294967295 -> snd (fst o) <= 65535 -> wf_incr v = true ->
+  Lexes (header_of o ++ ser_incr v ++ endobj_tail t)
+        (TInt (Z.of_N (fst (fst o))) :: TInt (Z.of_N (snd (fst o))) :: TKw w_obj :: toks v ++ [TKw w_endobj])
+        (10 :: t).
+Proof. exact obj_bytes_lexes. Qed.
+Check c17_obj_bytes_lexes : forall o v t,
+  fst (fst o) <= 4294967295 -> snd (fst o) <= 65535 -> wf_incr v = true ->
+  Lexes (header_of o ++ ser_incr v ++ endobj_tail t)
+        (TInt (Z.of_N (fst (fst o))) :: TInt (Z.of_N (snd (fst o))) :: TKw w_obj :: toks v ++ [TKw w_endobj])
+        (10 :: t).
+Print Assumptions c17_obj_bytes_lexes.
+
+Theorem c17_rewritten_object_read_indirect : forall base u pre o post v,
+  sort (u_objs u) = pre ++ o :: post -> snd o = ser_incr v -> wf_incr v = true ->
+  fst (fst o) <= 4294967295 -> snd (fst o) <= 65535 ->
+  let off := len (start_of base) + len (body_bytes pre) in
+  In (fst (fst o), CE off (snd (fst o)) true) (flatten (group (entries_of (changed base u))))
+  /\ read_indirect (skipn (N.to_nat off) (finish base u)) =
+     Some (Z.of_N (fst (fst o)), Z.of_N (snd (fst o)), norm v).
+Proof. exact rewritten_object_read_indirect_lemma. Qed.
+Check c17_rewritten_object_read_indirect : forall base u pre o post v,
+  sort (u_objs u) = pre ++ o :: post -> snd o = ser_incr v -> wf_incr v = true ->
+  fst (fst o) <= 4294967295 -> snd (fst o) <= 65535 ->
+  let off := len (start_of base) + len (body_bytes pre) in
+  In (fst (fst o), CE off (snd (fst o)) true) (flatten (group (entries_of (changed base u))))
+  /\ read_indirect (skipn (N.to_nat off) (finish base u)) =
+     Some (Z.of_N (fst (fst o)), Z.of_N (snd (fst o)), norm v).
+Print Assumptions c17_rewritten_object_read_indirect.
+
+Theorem c17_filler_object_read_indirect : forall base f pre o post v,
+  ff_objs f = pre ++ o :: post -> snd o = ser_incr v -> wf_incr v = true ->
+  fst (fst o) <= 4294967295 -> snd (fst o) <= 65535 ->
+  let off := len base + len (body_bytes pre) in
+  In (fst (fst o), CE off (snd (fst o)) true) (flatten (group (entries_of (fxref base f))))
+  /\ read_indirect (skipn (N.to_nat off) (filler_out base f)) =
+     Some (Z.of_N (fst (fst o)), Z.of_N (snd (fst o)), norm v).
+Proof. exact filler_object_read_indirect_lemma. Qed.
+Check c17_filler_object_read_indirect : forall base f pre o post v,
+  ff_objs f = pre ++ o :: post -> snd o = ser_incr v -> wf_incr v = true ->
+  fst (fst o) <= 4294967295 -> snd (fst o) <= 65535 ->
+  let off := len base + len (body_bytes pre) in
+  In (fst (fst o), CE off (snd (fst o)) true) (flatten (group (entries_of (fxref base f))))
+  /\ read_indirect (skipn (N.to_nat off) (filler_out base f)) =
+     Some (Z.of_N (fst (fst o)), Z.of_N (snd (fst o)), norm v).
+Print Assumptions c17_filler_object_read_indirect.
+
 (** non-vacuity: base without final EOL, two replacements registered in descending order, one body a
     nested dictionary with a non-ASCII name, a string with parentheses and a backslash, a reference
     and nested dictionaries (C09's [incr_sample]); hypotheses hold and the conclusion computes *)
@@ -392,5 +443,6 @@ Example c17_parses_back_concl :
   /\ is_prefixb (s "3 0 obj" ++ nl ++ ser_incr incr_sample ++ nl ++ s "endobj" ++ nl ++ s "7 0 obj" ++ nl) (skipn 19 out) = true
   /\ option_map (fun r => (fst r, hd TEof (snd r))) (read_value (skipn (19 + 8) out)) = Some (norm incr_sample, TKw w_endobj)
   /\ parse (ser_incr incr_sample ++ endobj_tail (skipn (19 + 8 + length (ser_incr incr_sample) + 8) out)) = Some (norm incr_sample)
+  /\ read_indirect (skipn 19 out) = Some (3%Z, 0%Z, norm incr_sample)
   /\ ascii_names incr_sample = false.
 Proof. exact pb_concl. Qed.
